@@ -15,6 +15,14 @@ pub fn check(t: &Trace<'_>, out: &mut CaseOut) -> bool {
     for (ev, e) in t.w.events.iter().enumerate() {
         let Ev::Probe { idx } = e else { continue };
         let p = &t.log.probes[*idx];
+        // the connection handle and the session give the same answer
+        if let Some(sc) = &p.status_conn {
+            out.count("probes_through_the_connection_handle", 1);
+            if let Some(h) = (0..sc.len().min(p.status.len())).find(|h| sc[*h] != p.status[*h]) {
+                out.violations.push(viol("C18", "C18/status/connection-and-session-disagree", format!("handle {}: Connection reports status bits {:#05b}, Session {:#05b} (connected={}) at event {}", h, sc[h], p.status[h], p.is_connected, ev)));
+                break;
+            }
+        }
         for (h, st) in p.status.iter().enumerate() {
             let Some(msg) = by_handle[h] else { continue };
             // a fresh broker session replaced the issuing one (also for handles that had completed)
